@@ -1,5 +1,5 @@
 (* Proofs/ExprTcTableProofs.v — C08 over the GENERATED descriptor table: one obligation per row. *)
-From Octo Require Import Expr ExprProofs ExprTc ExprTcProofs GenFunctions.
+From Octo Require Import Expr ExprProofs ExprTc ExprTcProofs ExprTcProofs2 GenFunctions.
 
 (* every row whose body is modelled declares an OutputType that allows everything the body can return *)
 Lemma table_outputs_ok : forallb (fun d => implb (desc_claimed d) (row_output_ok d)) function_table = true.
@@ -14,30 +14,48 @@ Qed.
 (* how many rows are claimed / not modelled is data of the run, not a theorem; the claimed ones are listed by
    [filter desc_claimed function_table] *)
 
-Theorem table_call_sound env ctx d args ks :
-  In d function_table -> desc_modelled d = true -> body_result_kinds (body_of d) = Some ks ->
+Theorem table_call_sound orc env ctx d args ks :
+  In d function_table -> desc_modelled d = true -> body_result_kinds (body_of no_oracle d) = Some ks ->
   ctx_conforms ctx env = true -> forallb (pwt env) args = true ->
-  forall v, peval ctx (PCall (nullable_wrap d args (fd_out d)) d args) = Ok v ->
+  forall v, peval orc ctx (PCall (nullable_wrap d args (fd_out d)) d args) = Ok v ->
             has_type v (nullable_wrap d args (fd_out d)) = true.
 Proof.
-  intros Hin M Bk Hc W. apply (call_sound env ctx d args ks Hc (table_row_ok d Hin M) M Bk W).
+  intros Hin M Bk Hc W. apply (call_sound orc env ctx d args ks Hc (table_row_ok d Hin M) M Bk W).
 Qed.
 
 (* a strict modelled descriptor whose declared OutputType does not allow NULL never returns NULL on non-NULL
    arguments of any types: "functions whose declared result is non-nullable never return NULL" *)
-Theorem table_non_nullable_result ctx d args vs v t :
+Theorem table_non_nullable_result orc ctx d args vs v t :
   In d function_table -> desc_modelled d = true ->
   has_kind K_NULL (fd_out d) = false ->
-  pevals ctx args = Ok vs -> Forall (fun x => is_null x = false) vs ->
-  peval ctx (PCall t d args) = Ok v -> is_null v = false.
+  pevals orc ctx args = Ok vs -> Forall (fun x => is_null x = false) vs ->
+  peval orc ctx (PCall t d args) = Ok v -> is_null v = false.
 Proof.
   intros Hin M Hn He F Hv.
-  rewrite (call_no_null t d ctx args vs He F) in Hv.
-  destruct (apply_body (body_of d) vs) as [r|e|p] eqn:Ab; try discriminate Hv.
+  rewrite (call_no_null orc t d ctx args vs He F) in Hv.
+  destruct (apply_body (body_of orc d) vs) as [r|e|p] eqn:Ab; try discriminate Hv.
   2:{ destruct (e =? E_NOT_MODELLED); discriminate Hv. }
   inversion Hv; subst r. pose proof (table_row_ok d Hin M) as R. unfold row_output_ok in R.
-  destruct (body_result_kinds (body_of d)) as [ks|] eqn:Bk.
+  destruct (body_result_kinds (body_of no_oracle d)) as [ks|] eqn:Bk; rewrite <- (body_kinds_orc orc) in Bk.
   - pose proof (body_kinds_sound _ _ _ _ Bk Ab) as K. pose proof (kinds_in_mem _ _ _ R K) as HK.
     destruct v; try reflexivity. simpl in HK. unfold K_NULL in Hn. rewrite HK in Hn. discriminate Hn.
   - destruct (body_ident_sound _ _ _ Bk Ab) as [rest ->]. inversion F; subst. assumption.
 Qed.
+
+(* ---------- the typechecker over the generated table ---------- *)
+Lemma table_rows_ok2 : forallb row_ok2 function_table = true.
+Proof. vm_compute. reflexivity. Qed.
+
+Lemma function_table_ok : table_ok function_table.
+Proof. intros d Hin. pose proof table_rows_ok2 as T. rewrite forallb_forall in T. apply T. exact Hin. Qed.
+
+(* everything the typechecker model accepts is sound, for either behaviour of TypeIntersection *)
+Theorem table_tc_sound orc al env e pe ctx v :
+  tc al function_table env e = TcOk pe -> ctx_conforms ctx env = true ->
+  peval orc ctx pe = Ok v -> has_type v (ptype pe) = true.
+Proof.
+  intros H Hc Hv. exact (pwt_sound orc env ctx Hc pe (tc_pwt al function_table env function_table_ok e pe H) v Hv).
+Qed.
+
+Theorem table_tc_pwt al env e pe : tc al function_table env e = TcOk pe -> pwt env pe = true.
+Proof. apply tc_pwt. exact function_table_ok. Qed.
